@@ -261,6 +261,19 @@ WriteFloatFiniteWhy(ev, f, o, sc) ==
 (* notation, digit counts, punctuation: judged on the output itself (FloatWrite!LayoutClauses) *)
 WriteFloatLayoutWhy(ev, f, o, sc) == LayoutClauses(f, o, sc, ev.res.out)
 
+(* C09, beyond the floats that happen to be written: the bound the code reports for these options (ev.bound.bsc)  *)
+(* must cover the longest output ANY float of the type produces under them -- Bounds!LongestOutput, the maximum   *)
+(* of the documented layout over every scientific exponent and digit count of the type (decimal formats only).   *)
+BND == INSTANCE Bounds
+BoundCoversLongest(ev, f, o) ==
+    IF ~(ev.wo /\ ev.ty \in {"f32", "f64"} /\ Radix(f) = 10 /\ ExponentBase(f) = 10 /\ "bound" \in DOMAIN ev) THEN << >>
+    ELSE LET L == BND!LongestOutput(ev.ty, [min |-> o.min, max |-> o.max, neg |-> o.neg, pos |-> o.pos, trim |-> o.trim],
+                                    [noexp |-> f.no_exponent_notation, reqexp |-> f.required_exponent_notation,
+                                     reqsign |-> f.required_exponent_sign])
+             sp == 1 + (IF Len(o.nan) > Len(o.inf) THEN Len(o.nan) ELSE Len(o.inf))
+         IN  V(ev.bound.bsc >= L.len, "C09", "the documented buffer bound is smaller than the longest output these options allow")
+          \o V(ev.bound.bsc >= sp, "C09", "the documented buffer bound is smaller than a special-value string")
+
 WriteFloatContract(ev) ==
     LET f  == FmtOf(ev)
         o  == WFOpts(ev)
@@ -271,15 +284,16 @@ WriteFloatContract(ev) ==
         THEN \* options the builder rejects, or punctuation that is a digit / sign / separator of this format: only "no fault"
              (IF r.k \in {"ok", "panic"} THEN << >> ELSE << << "C09", "write call did not return: " \o r.k >> >>)
         ELSE IF specialOff THEN V(r.k = "panic", "C15", "special value written although its string is disabled")
-        ELSE LET ab == WriteAbnormal(ev) IN
+        ELSE LET ab == WriteAbnormal(ev)
+                 bc == BoundCoversLongest(ev, f, o) IN
         IF ab # << >> THEN
             \* no output at all also breaks what the property of this writer says about "every finite float"
-            ab \o (IF v.cls \in {"finite", "zero"}
+            ab \o bc \o (IF v.cls \in {"finite", "zero"}
                    THEN << << (IF Radix(f) = 10 THEN "C02" ELSE IF IsPow2Radix(Radix(f)) THEN "C06" ELSE "C07"),
                               "no output for a finite float: " \o r.k >> >>
                    ELSE << >>)
-        ELSE IF r.k # "ok" THEN << >>
-        ELSE V(AllAscii(r.out, 1), "C17", "non-ASCII byte written")
+        ELSE IF r.k # "ok" THEN bc
+        ELSE bc \o V(AllAscii(r.out, 1), "C17", "non-ASCII byte written")
           \o (IF v.cls = "nan" THEN V(r.out = o.nan, "C15", "NaN not written as the configured string (or written with a sign)")
               ELSE IF v.cls = "inf" THEN V(r.out = (IF v.neg THEN << CMinus >> ELSE << >>) \o o.inf, "C15", "infinity not written as [-]inf string")
               ELSE LET sc == ScanComplete("float", f, WFAsPF(o), r.out, Len(r.out)) IN
@@ -366,11 +380,15 @@ SameRes(a, b) ==
     /\ (a.k = "ok" /\ "out" \in DOMAIN a => a.out = b.out)
     /\ (a.k = "err" => a.code = b.code /\ a.idx = b.idx)
 
-SameCall(a, b) ==
+SameArgs(a, b) ==
     /\ a.op = b.op /\ a.ty = b.ty /\ a.fmt = b.fmt /\ a.wo = b.wo /\ a.opts = b.opts
     /\ (a.op = "parse" => a.in = b.in)
-    /\ (a.op = "write" => a.val = b.val /\ ("buflen" \in DOMAIN a) = ("buflen" \in DOMAIN b)
-                          /\ ("buflen" \in DOMAIN a => a.buflen = b.buflen))
+    /\ (a.op = "write" => a.val = b.val)
+(* the same call with a sufficient buffer: a writer's result does not depend on the buffer once it has the documented *)
+(* size (the default buffer of the harness differs between feature sets, FORMATTED_SIZE does); the facade allocates    *)
+(* its own buffer and its events carry no buflen                                                                      *)
+Sufficient(a) == a.op = "write" => ("buflen" \in DOMAIN a => a.buflen >= Need(a))
+SameCall(a, b) == SameArgs(a, b) /\ Sufficient(a) /\ Sufficient(b)
 
 (* Each relation is written from the point of view of one event b = o[i] (the partial call, the  *)
 (* facade call, the parse-back, the lossy call, the call in the other configuration) against     *)
@@ -409,7 +427,7 @@ FacadeEqualsCoreAt(o, i) ==
     (b.op \in {"parse", "write"} /\ b.api = "facade") =>
     \A j \in Others(o, i) :
         LET a == o[j] IN
-        (a.op \in {"parse", "write"} /\ a.cfg = b.cfg /\ a.api = "core" /\ SameCall(a, b)
+        (a.op \in {"parse", "write"} /\ a.cfg = b.cfg /\ a.api = "core" /\ SameArgs(a, b)
            /\ (a.op = "parse" => a.partial = b.partial)
            /\ (a.op = "write" => a.buflen >= Need(a)))
         => SameRes(a.res, b.res)
